@@ -51,6 +51,140 @@ theorem arith_repr (t : IntTy) (r v : Int) (h : t.arith r = .ok v) : t.Repr v :=
       simp only [Bool.false_eq_true, if_false]
       omega
 
+/-! ### conversion to the type, compound assignment -/
+
+theorem two_pow_cast (n : Nat) : (((2 ^ n : Nat) : Int)) = (2 : Int) ^ n := by
+  simp
+
+theorem half_double (t : IntTy) (hb : 0 < t.bits) : (2 : Int) ^ t.bits = 2 * 2 ^ (t.bits - 1) := by
+  obtain ⟨k, hk⟩ : ∃ k, t.bits = k + 1 := ⟨t.bits - 1, by omega⟩
+  rw [hk, Int.pow_succ]
+  simp
+  omega
+
+/-- converting a value of the type to the type changes nothing -/
+theorem conv_of_repr (t : IntTy) (hb : 0 < t.bits) (x : Int) (hx : t.Repr x) : t.conv x = x := by
+  have hp := two_pow_pos t.bits
+  have hd := half_double t hb
+  unfold Repr lo hi at hx
+  unfold conv
+  cases hs : t.signed with
+  | true =>
+    simp only [hs, if_true] at hx ⊢
+    apply Int.bmod_eq_of_le_mul_two
+    · rw [two_pow_cast]; omega
+    · rw [two_pow_cast]; omega
+  | false =>
+    simp only [hs, Bool.false_eq_true, if_false] at hx ⊢
+    exact Int.emod_eq_of_lt hx.1 (by omega)
+
+/-- the result of a conversion is a value of the type -/
+theorem conv_repr (t : IntTy) (hb : 0 < t.bits) (x : Int) : t.Repr (t.conv x) := by
+  have hp := two_pow_pos t.bits
+  have hd := half_double t hb
+  have hpn : 0 < 2 ^ t.bits := Nat.pow_pos (by decide)
+  unfold Repr lo hi conv
+  cases hs : t.signed with
+  | true =>
+    simp only [if_true]
+    have h1 := @Int.le_bmod x (2 ^ t.bits) hpn
+    have h2 := @Int.bmod_lt x (2 ^ t.bits) hpn
+    rw [two_pow_cast] at h1 h2
+    constructor <;> omega
+  | false =>
+    simp only [Bool.false_eq_true, if_false]
+    have h1 := Int.emod_nonneg x (Int.ne_of_gt hp)
+    have h2 := Int.emod_lt_of_pos x hp
+    constructor <;> omega
+
+/-- … and is congruent to the argument modulo 2^bits -/
+theorem conv_congr (t : IntTy) (x : Int) : ∃ k : Int, t.conv x = x + k * 2 ^ t.bits := by
+  unfold conv
+  cases hs : t.signed with
+  | true =>
+    simp only [if_true]
+    refine ⟨-(Int.bdiv x (2 ^ t.bits)), ?_⟩
+    rw [Int.bmod_eq_self_sub_bdiv_mul, two_pow_cast]
+    simp [Int.neg_mul, Int.sub_eq_add_neg]
+  | false =>
+    simp only [Bool.false_eq_true, if_false]
+    refine ⟨-(x / 2 ^ t.bits), ?_⟩
+    rw [Int.emod_def, Int.neg_mul, Int.mul_comm]
+    omega
+
+theorem promoted_wide (t : IntTy) (h : ¬ t.bits < 32) : t.promoted = t := by simp [promoted, h]
+theorem promoted_narrow (t : IntTy) (h : t.bits < 32) : t.promoted = i32 := by simp [promoted, h]
+
+/-- `int` and wider: the result of the operator is already a value of the type, the conversion is the identity -/
+theorem arith_conv_wide (t : IntTy) (hb : 0 < t.bits) (r : Int) :
+    (do let v ← t.arith r; pure (t.conv v) : M Int) = t.arith r := by
+  cases h : t.arith r with
+  | error e => rfl
+  | ok v =>
+    have := conv_of_repr t hb v (arith_repr t r v h)
+    show (Except.ok (t.conv v) : M Int) = .ok v
+    rw [this]
+
+/-- bounds of a value of a type of at most 16 bits -/
+theorem repr_narrow_bound (t : IntTy) (h16 : t.bits ≤ 16) (x : Int) (hx : t.Repr x) : -65536 < x ∧ x < 65536 := by
+  have h1 : (2 : Int) ^ t.bits ≤ 2 ^ 16 := by
+    have : (2 : Nat) ^ t.bits ≤ 2 ^ 16 := Nat.pow_le_pow_right (by decide) h16
+    exact_mod_cast this
+  have hp := two_pow_pos (t.bits - 1)
+  have h2 : (2 : Int) ^ (t.bits - 1) ≤ 2 ^ 15 := by
+    have : (2 : Nat) ^ (t.bits - 1) ≤ 2 ^ 15 := Nat.pow_le_pow_right (by decide) (by omega)
+    exact_mod_cast this
+  unfold Repr lo hi at hx
+  have h3 : (2 : Int) ^ 16 = 65536 := by decide
+  have h4 : (2 : Int) ^ 15 = 32768 := by decide
+  cases hs : t.signed <;> simp only [hs, if_true, Bool.false_eq_true, if_false] at hx <;> omega
+
+theorem i32_repr_iff (x : Int) : i32.Repr x ↔ -2147483648 ≤ x ∧ x ≤ 2147483647 := by
+  unfold Repr lo hi i32
+  have : (2 : Int) ^ (32 - 1) = 2147483648 := by decide
+  simp only [if_true, this]
+  omega
+
+theorem i32_arith_ok (x : Int) (h : -2147483648 ≤ x ∧ x ≤ 2147483647) : i32.arith x = .ok x :=
+  arith_signed_ok i32 rfl x ((i32_repr_iff x).2 h)
+
+/-- every bit pattern denotes a value of the type -/
+theorem ofBV_repr (t : IntTy) (v : BitVec t.bits) : t.Repr (t.ofBV v) := by
+  unfold Repr lo hi ofBV
+  cases hs : t.signed with
+  | true =>
+    simp only [if_true]
+    exact ⟨BitVec.le_toInt v, BitVec.toInt_le⟩
+  | false =>
+    simp only [Bool.false_eq_true, if_false]
+    have h := v.isLt
+    have h' : ((v.toNat : Nat) : Int) < ((2 ^ t.bits : Nat) : Int) := Int.ofNat_lt.2 h
+    rw [two_pow_cast] at h'
+    constructor <;> omega
+
+theorem bitwise_conv_wide (t : IntTy) (hb : 0 < t.bits) (v : BitVec t.bits) : t.conv (t.ofBV v) = t.ofBV v :=
+  conv_of_repr t hb _ (ofBV_repr t v)
+
+theorem bxor_self (t : IntTy) (a : Int) : t.bxor a a = 0 := by
+  unfold bxor ofBV
+  rw [BitVec.xor_self]
+  cases t.signed <;> simp
+
+theorem conv_zero (t : IntTy) : t.conv 0 = 0 := by
+  unfold conv
+  cases t.signed <;> simp
+
+/-- |a|, |b| ≤ K → |a b| ≤ K² -/
+theorem mul_bound (a b K : Int) (ha : -K ≤ a ∧ a ≤ K) (hb : -K ≤ b ∧ b ≤ K) : -(K * K) ≤ a * b ∧ a * b ≤ K * K := by
+  have h1 : a.natAbs ≤ K.natAbs := by omega
+  have h2 : b.natAbs ≤ K.natAbs := by omega
+  have h3 : (a * b).natAbs ≤ (K * K).natAbs := by
+    rw [Int.natAbs_mul, Int.natAbs_mul]
+    exact Nat.mul_le_mul h1 h2
+  have hK : 0 ≤ K := by omega
+  have hKK : 0 ≤ K * K := Int.mul_nonneg hK hK
+  omega
+
 end IntTy
 
 namespace ST
